@@ -48,6 +48,20 @@ def systematic_pool():
     add("shared_helper", top=Rule([Alt([n("p", ("group", [Alt([A]), Alt([B])])), n("q", ("rule", "other"))], "('top', q)")]),
         other=Rule([Alt([n("p", ("group", [Alt([A]), Alt([B])])), C], "('other',)"), Alt([C], "('c',)")]))
     add("shared_repeat", top=Rule([Alt([n("x", ("star", ("group", [Alt([A]), Alt([B])]))), C, n("y", ("star", ("group", [Alt([A]), Alt([B])])))], "('xy', len(x), len(y))")]))
+    atom = Rule([Alt([n("v", ("NUMBER",))], "('num',)"), Alt([n("v", ("NAME",))], "('name',)")])
+    add("twin_lookahead_groups", top=Rule([Alt([n("x", ("group", [Alt([("pos", ("NUMBER",)), n("t", ("rule", "atom"))], "t")])),
+                                               n("y", ("group", [Alt([("neg", ("NUMBER",)), n("t", ("rule", "atom"))], "t")]))], "('p', x, y)")]), atom=atom)
+    add("twin_repeat_groups", top=Rule([Alt([n("x", ("group", [Alt([n("r", ("star", A)), B], "('s', len(r))")])), n("y", ("group", [Alt([n("r", ("plus", A)), B], "('s', len(r))")]))],
+                                            "('q', x, y)")]))
+    add("twin_opt_groups", top=Rule([Alt([n("x", ("group", [Alt([n("o", ("opt", A)), C], "('o', o is not None)")])), n("y", ("group", [Alt([n("o", A), C], "('o', o is not None)")]))], "('q', x, y)")]))
+    add("twin_gather_groups", top=Rule([Alt([n("x", ("group", [Alt([n("g", ("gather", C, A))], "('g', len(g))")])), B, n("y", ("group", [Alt([n("g", ("gather", B, A))], "('g', len(g))")]))], "('q', x, y)")]))
+    add("twin_literal_groups", top=Rule([Alt([n("x", ("group", [Alt([A, B], "('ab',)"), Alt([A], "('a',)")])), n("y", ("group", [Alt([A, C], "('ab',)"), Alt([A], "('a',)")]))], "('q', x, y)")]))
+    add("left_rec_indirect_memo_member", top=Rule([Alt([n("m", ("rule", "zmid")), A], "('T', m)"), Alt([B], "('B',)")]),
+        zmid=Rule([Alt([n("t", ("rule", "top")), C], "('M', t)"), Alt([C], "('C',)")], memo=True))
+    add("left_rec_attr_chain", attr=Rule([Alt([n("v", ("rule", "name_or_attr")), C, n("a", ("NAME",))], "('attr', v)")]),
+        name_or_attr=Rule([Alt([n("x", ("rule", "attr"))], "x"), Alt([n("x", ("NAME",))], "('n',)")], memo=True),
+        top=Rule([Alt([n("x", ("rule", "attr"))], "('top', x)"), Alt([n("x", ("NAME",))], "('nm',)")]))
+    add("left_rec_leader_memo", top=Rule([Alt([n("l", ("rule", "top")), A], "('L', l)"), Alt([B], "('B',)")], memo=True))
     add("terminals", top=Rule([Alt([n("k", ("NAME",)), A, n("v", ("NUMBER",))], "('kv',)"), Alt([n("v", ("NUMBER",))], "('v',)"), Alt([n("k", ("NAME",))], "('k',)")]))
     add("opt_group_alts", top=Rule([Alt([n("o", ("opt", ("group", [Alt([A, B]), Alt([A])]))), C], "('o', o is not None)")]))
     add("look_group", top=Rule([Alt([("pos", ("group", [Alt([A, B]), Alt([C])])), n("t", ("group", [Alt([A]), Alt([C])]))], "('lg',)"), Alt([A], "('a',)")]))
